@@ -21,7 +21,7 @@ from ..core.framework import Ctx, b2s
 
 SPEC = {
     "modules": ["HC.Props.C01"],
-    "extracted": ["Guards", "Consts", "H11Tables", "ReqGlue"],
+    "extracted": ["Guards", "Consts", "H11Tables", "ReqGlue", "Runtime"],
     "technique": "Lean 4: scope construction law (target split, method, headers), per-event forwarding lemmas and a transducer theorem for runs of body events (concatenation / one final message / segmentation independence at the glue), filter_pseudo_headers spec, one instance per request (with C06 serial) — tied by direct drive of H11Protocol with h11 taps and by end-to-end runs on both workers over every two-way split",
     "level_text": "Proved in Lean: the HTTP/1 scope is exactly (upper-cased method, target split at the first '?' with nothing lost, version, header list as h11 reports it or raw when configured); a WebSocket scope is chosen iff GET + Upgrade: websocket + Connection upgrade token; on HTTP/2 the header list is host (from :authority, else host) followed by the non-pseudo, non-host headers in order; every Data / EndOfMessage event of the parser is forwarded to the live instance as exactly one http.request message carrying those bytes; for every chunking of the body the messages concatenate to the body with exactly one more_body=False message iff the parser reported completion, independently of how the parser cut the bytes; handling a Request spawns exactly one instance, and (C06) only when none is live; the server-name decision (host-header test extracted from utils.valid_server_name) is the same for the raw and the lower-cased header list, so configuring raw headers never changes whether an instance is started; on HTTP/2 every DataReceived acknowledges exactly its flow-controlled length whether or not its stream still exists (call counts extracted from _handle_events), so the connection receive window is conserved over any sequence of DATA events.  That the parsers' events carry the client's bytes for every segmentation is library behaviour: sampled end-to-end on both workers (HTTP/1.0, 1.1, 2; content-length, chunked, DATA frames; every two-way split of requests <= 300 bytes, random k-way and one-byte-per-read splits; eager, lazy and slow consumers with more chunks than the bounded app queue holds; raw headers on/off x server names set/unset with the client's own spelling of Host; HTTP/2 connections with several requests, applications answering before or without reading the body and late uploads).",
     "level_note": "Trusted: Lean kernel; models HC/Proto/H11.lean, HC/Stream/Http.lean, HC/Pure/Utils.lean (differential runs); h11 / h2 / hpack parsing and the asyncio Queue / trio memory channel FIFO semantics are library behaviour (sampled); urllib.parse.unquote is compared with an independent percent-decoder written in the harness; the HTTP/2 protocol glue is covered end-to-end only (no Lean model of H2Protocol's receive side beyond filter_pseudo_headers).",
@@ -298,6 +298,27 @@ def cfg_corpus() -> Tuple[List[dict], List[dict]]:
     return direct, e2e
 
 
+def timing_corpus() -> List[dict]:
+    """deterministic: read time-out set, more body messages than the bounded application queue holds, and an application
+    that starts to receive later than the time-out - the whole request is sent at once, so the body must arrive whole"""
+    out = []
+    k = 0
+    for worker in ("asyncio", "trio"):
+        for proto, req, q in (
+                ("1.1", {"kind": "body_chunked", "method": "POST", "target": "/up", "headers": [["Host", "x"]], "version": "1.1", "body": "",
+                         "chunks": ["c%02d" % i for i in range(25)]}, None),
+                ("1.1", {"kind": "body_cl", "method": "POST", "target": "/up", "headers": [["Host", "x"]], "version": "1.1", "body": "u" * 70000, "chunks": None}, 2),
+                ("1.0", {"kind": "body_cl", "method": "POST", "target": "/up", "headers": [["Host", "x"]], "version": "1.0", "body": "v" * 5000, "chunks": None}, 1),
+                ("2", {"kind": "body_cl", "method": "POST", "target": "/up", "headers": [["Host", "x"]], "version": "1.1", "body": "w" * 50000, "chunks": None}, 2)):
+            for consumer in ("lazy", "slow"):
+                k += 1
+                cfg: Dict[str, Any] = {"read_timeout": 1}
+                if q is not None:
+                    cfg["max_app_queue_size"] = q
+                out.append({"family": "e2e", "proto": proto, "worker": worker, "consumer": consumer, "seed": 400 + k, "requests": [dict(req)], "cfg": cfg})
+    return out
+
+
 def gen_e2e_session(ctx: Ctx) -> dict:
     rng = ctx.rng
     proto = rng.choice(["1.1", "1.1", "1.0", "2", "2"])
@@ -322,6 +343,15 @@ def gen_e2e_session(ctx: Ctx) -> dict:
             reqs[0]["chunks"], reqs[0]["body"] = ["c%02d" % i for i in range(25)], ""
     cfg = gen_cfg(rng)
     respell(rng, reqs, cfg)
+    # timing-relevant configuration: a small bounded application queue (back-pressure on the reader after a few
+    # messages) and a read time-out shorter than the slow consumers' delays.  The read time-out bounds the wait for
+    # *client bytes* only: it is set where the client has nothing left to send when it could fire (one request, sent
+    # up front, an HTTP/2 body inside the initial window) - otherwise closing a slow client's connection is the
+    # configured behaviour and not a subject of the statement.
+    if rng.random() < 0.35:
+        cfg["max_app_queue_size"] = rng.choice([1, 2, 3])
+    if n == 1 and (proto != "2" or len(HS.request_body(reqs[0])) <= 60000) and rng.random() < 0.5:
+        cfg["read_timeout"] = 1
     return {"family": "e2e", "proto": proto, "requests": reqs, "consumer": rng.choice(["eager", "eager", "slow", "lazy"]),
             "worker": rng.choice(["asyncio", "trio"]), "seed": rng.randrange(1 << 30), "cfg": cfg}
 
@@ -376,6 +406,9 @@ def check_e2e(ctx: Ctx, sessions: List[dict], all_two_way: bool) -> None:
             sig = {"family": "e2e", "proto": case["proto"], "worker": case["worker"]}
             if ccfg:
                 sig.update({"raw": raw, "names": bool(ccfg.get("server_names"))})
+                if ccfg.get("read_timeout") is not None:
+                    sig["read_timeout"] = True
+                ctx.count("e2e.timing", f"read_timeout={ccfg.get('read_timeout')} queue={ccfg.get('max_app_queue_size', 'default')} consumer={case['consumer']}")
                 ctx.count("e2e.cfg", f"raw={int(raw)} names={int(bool(ccfg.get('server_names')))}")
             short = {"family": "e2e", "proto": case["proto"], "worker": case["worker"], "consumer": case["consumer"], "requests": reqs,
                      "reads": [len(x) for x in reads], "seed": case["seed"], "cfg": ccfg}
@@ -573,7 +606,7 @@ def run(ctx: Ctx) -> None:
             sessions.append({"family": "e2e", "proto": proto, "worker": worker, "consumer": "slow", "seed": 7 + n,
                              "requests": [{"kind": "body_cl", "method": "POST", "target": "/up", "headers": [["Host", "x"]], "version": "1.1",
                                            "body": "u" * n, "chunks": None}]})
-    check_e2e(ctx, corpus_e2e + sessions, all_two_way=False)
+    check_e2e(ctx, corpus_e2e + timing_corpus() + sessions, all_two_way=False)
     check_e2e(ctx, shorts, all_two_way=True)
     check_h2conn(ctx, h2conn_corpus() + [gen_h2conn(ctx) for _ in range(ctx.budget(30, 400))])
 
